@@ -393,11 +393,12 @@ class World:
         return list(self.p["part"]["counts"])[: self.ncpu] + [0] * max(0, self.ncpu - len(self.p["part"]["counts"]))
 
     def part_value(self, icol, typ, pid):
+        # values of either sign in every type (tracer families are negative bytes; ids and velocities may be negative)
         if typ == "d":
-            return float((icol + 1) * 65536 + pid) + 0.25
+            return (float((icol + 1) * 65536 + pid) + 0.25) * (-1.0 if pid % 4 == 1 else 1.0)
         if typ == "i":
-            return int((icol + 1) * 4096 + pid)
-        return int((pid * 7 + icol) % 100)  # 'b': one signed byte
+            return int((icol + 1) * 4096 + pid) * (-1 if pid % 3 == 2 else 1)
+        return int((pid * 7 + icol) % 200) - 100  # 'b': one signed byte, -100..99
 
     def part_ids(self, cpu):
         cnt = self.part_counts()
